@@ -36,7 +36,7 @@ CHANGE = r'  [^\n]*'
 BLANK = r'[ \t]*'
 
 
-def extract_block_template(src, rep):
+def extract_block_template(src, rep, all_terms=False):
     f = src.func(M + ':ChangeBlock._format')
     rep.saw_func(f)
     S = ('str',)
@@ -44,13 +44,43 @@ def extract_block_template(src, rep):
                      'urgency_comment': S, 'other_pairs': ('dict', S, S), 'changes()': ('list', S), '_no_trailer': ('bool',),
                      'author': ('opt', S), 'date': ('opt', S), '_trailer_separator': S, '_trailing': ('list', S)})
     params = f.params()
+    body = f.node.body
+    acc = src.func(M + ':ChangeBlock.changes')
+    rets = [r_ for r_ in ast.walk(acc.node) if isinstance(r_, ast.Return)]
+    if len(rets) == 1 and rets[0].value is not None and norm(rets[0].value) == 'self._changes':
+        # the accessor returns the stored list itself: a direct read of the attribute is the same list
+        class Alias(ast.NodeTransformer):
+            def visit_Attribute(self, n):
+                if norm(n) == 'self._changes' and isinstance(n.ctx, ast.Load):
+                    return ast.copy_location(ast.Call(func=ast.Attribute(value=ast.Name(id='self', ctx=ast.Load()), attr='changes', ctx=ast.Load()), args=[], keywords=[]), n)
+                return self.generic_visit(n)
+        from ..core import clone as _clone
+        body = [ast.fix_missing_locations(Alias().visit(_clone(st))) for st in body]
+
+    def cond_hook(it, test, env):
+        # a test on one element of a stored list taken by constant index (`lst[-1]`): free in the world where the list is not empty
+        subs = [n for n in ast.walk(test) if isinstance(n, ast.Subscript) and isinstance(n.slice, (ast.Constant, ast.UnaryOp))]
+        if len(subs) != 1 or isinstance(test, (ast.BoolOp,)) or (isinstance(test, ast.UnaryOp) and isinstance(test.op, ast.Not)):
+            return NotImplemented
+        try:
+            lst = it.resolve(it.ev(subs[0].value, env))
+        except strlang.NotTemplate:
+            return NotImplemented
+        if not isinstance(lst, strlang.ListOf) or lst.src in ('local', 'literal', 'acc'):
+            return NotImplemented
+        others = [n for n in ast.walk(test) if isinstance(n, ast.Name) and isinstance(n.ctx, ast.Load) and n.id in env and n.id != 'self']
+        if others:
+            return NotImplemented
+        if not it.decide(('nonempty', lst.src), '%s non-empty' % lst.src):
+            raise strlang.Raised('IndexError')
+        return it.decide(('pred', '%s[%s]' % (lst.src, norm(subs[0].slice)), norm(test)), norm(test))
 
     def run(dec):
-        it = strlang.Interp(dec, cls='ChangeBlock')
+        it = strlang.Interp(dec, cls='ChangeBlock', cond_hook=cond_hook)
         env = {'self': Obj('self', shape)}
         for p in params[1:]:
             env[p] = BoolUnknown(p)
-        r = it.run(f.node.body, env)
+        r = it.run(body, env)
         if r is None or r[0] != 'return':
             raise AnalysisError('%s: no return' % f.site)
         return r[1], it
@@ -59,7 +89,12 @@ def extract_block_template(src, rep):
             if dec.get(('bool', 'self._no_trailer')) is False and dec.get(('present', 'self.author')) and dec.get(('present', 'self.date'))]
     if not good:
         raise AnalysisError('%s: no world with a complete trailer' % f.site)
-    terms = {strlang.show(t): t for _, t in good}
+    terms = {}
+    for _, t in good:
+        terms.setdefault(strlang.show(t), t)
+    if all_terms:
+        # several layouts of the complete block (the layout depends on the stored content): shortest first
+        return f, sorted(terms.values(), key=lambda t: len(strlang.show(t))), raised
     if len(terms) != 1:
         raise AnalysisError('%s: the complete block has %d different templates' % (f.site, len(terms)))
     return f, next(iter(terms.values())), raised
@@ -538,15 +573,21 @@ def r3_routing(rep, src, model, header_e, trailer_e, alpha):
                 rep.ok('C04.R3', f.site, 'end of input after a trailer', 'no effect')
 
 
-def r4_order(rep, src, lines, f):
+def r4_layout(rep, lines, f, label=''):
     kinds = [k for k, _ in lines]
     shown = [strlang.show(t) for _, t in lines]
     # header, changes*, trailer, trailing*
     ok = len(lines) == 4 and kinds == ['line', 'star', 'line', 'star'] and 'self.changes()[]' in shown[1] and 'self._trailing[]' in shown[3]
     if ok:
-        rep.ok('C04.R4', f.site, 'block = header, change lines, trailer, trailing lines', ' / '.join(shown))
+        rep.ok('C04.R4', f.site, 'block = header, change lines, trailer, trailing lines' + label, ' / '.join(shown))
     else:
-        rep.fail('C04.R4', f.site, 'block = header, change lines, trailer, trailing lines', 'the block is emitted as %s' % ' / '.join('%s:%s' % x for x in zip(kinds, shown)), where=f.where)
+        rep.fail('C04.R4', f.site, 'block = header, change lines, trailer, trailing lines' + label, 'the block is emitted as %s: lines that are not stored lines (or stored lines '
+                 'that are not written) make the parsed-back block differ' % ' / '.join('%s:%s' % x for x in zip(kinds, shown)), where=f.where)
+    return ok, kinds, shown
+
+
+def r4_order(rep, src, lines, f):
+    ok, kinds, shown = r4_layout(rep, lines, f)
     if ok and shown[1] == '{self.changes()[]}' and shown[3] == '{self._trailing[]}':
         rep.ok('C04.R4', f.site, 'stored lines are emitted verbatim', 'line + "\\n"', nontrivial=False)
     else:
@@ -621,15 +662,18 @@ def check(src, rep, tier):
     alpha = rx.alphabet('str')
 
     def templ(rep):
-        f, term, raised = extract_block_template(src, rep)
-        lines = cut_lines(term)
-        return f, lines
+        f, terms, raised = extract_block_template(src, rep, all_terms=True)
+        return f, [cut_lines(term) for term in terms]
     rep.guard('C04.R1', r0_writer_order, src)
     out = rep.guard('C04.R4', templ)
     if out is None:
         return
-    f, lines = out
+    f, layouts = out
+    lines = layouts[0]
     rep.guard('C04.R4', lambda r: r4_order(r, src, lines, f))
+    for k_, extra in enumerate(layouts[1:]):
+        # the writer has further layouts for a complete block, chosen by the stored content: each must have the same line structure
+        rep.guard('C04.R4', lambda r, extra=extra, k_=k_: r4_layout(r, extra, f, ' (content-dependent layout %d)' % (k_ + 2)))
     if len(lines) >= 3 and lines[0][0] == 'line':
         rep.guard('C04.R1', lambda r: r1_header(r, src, f, lines[0][1], alpha))
     rep.guard('C04.R1', r1b_reader_wiring, src)
